@@ -140,7 +140,7 @@ def build(provider, cfg, sched, start=0, qsize_arg=None):
             sched.finish("cons")
 
     ct = threading.Thread(target=consume, daemon=True)
-    return dict(pred=pred, pipe=pipe, q=rq, stub=stub, outs=outs, cons=ct, meta=meta, pos_of=pos_of)
+    return dict(pred=pred, pipe=pipe, q=rq, stub=stub, outs=outs, cons=ct, meta=meta, pos_of=pos_of, real_join=real_join)
 
 
 PPC_OF = {"read": "read", "put": "put", "eos": "eos", "finished": "done"}
@@ -263,7 +263,7 @@ def free_run(provider, cfg, seed, start=0, watchdog=90.0):
             hang = True
             break
     if not hang:
-        H["pipe"].join(5.0)
+        H["real_join"](5.0)  # the un-wrapped Thread.join: must not add a trace event
         hang = H["pipe"].is_alive()
     exp = H["meta"]["expect"]
     fmap = {e["frame_idx"]: p + 1 for p, e in enumerate(exp)}
